@@ -35,10 +35,15 @@ type Config struct {
 	L1    string // std | chunked | batched | inmem | cluster (l1only: two names of the one L1 fake as nodes)
 	L2    string // - | std | batched
 	Conc  uint8  // lock concurrency (log2 of stripes)
+	TCP   bool   // main port on loopback TCP instead of a unix socket (as memproxy listens)
 }
 
 func (c Config) String() string {
-	return fmt.Sprintf("%s/%s/%s+%s/c%d", c.Shape, c.Lock, c.L1, c.L2, c.Conc)
+	tcp := ""
+	if c.TCP {
+		tcp = "/tcp"
+	}
+	return fmt.Sprintf("%s/%s/%s+%s/c%d%s", c.Shape, c.Lock, c.L1, c.L2, c.Conc, tcp)
 }
 
 type Stack struct {
@@ -202,8 +207,21 @@ func build(cfg Config) *Stack {
 	default:
 		panic("bad lock " + cfg.Lock)
 	}
-	go server.ListenAndServe(server.UnixListener(s.MainSock), protocols, server.Default, o, h1, h2)
-	waitSock(s.MainSock)
+	if cfg.TCP {
+		port := freePort()
+		s.MainAddr = fmt.Sprintf("127.0.0.1:%d", port)
+		go server.ListenAndServe(server.TCPListener(port), protocols, server.Default, o, h1, h2)
+		for i := 0; i < 2000; i++ {
+			if c, err := net.DialTimeout("tcp", s.MainAddr, time.Second); err == nil {
+				c.Close()
+				break
+			}
+			time.Sleep(time.Millisecond)
+		}
+	} else {
+		go server.ListenAndServe(server.UnixListener(s.MainSock), protocols, server.Default, o, h1, h2)
+		waitSock(s.MainSock)
+	}
 	if cfg.Shape == "l1l2+batch" {
 		var ob orcas.OrcaConst = orcas.L1L2Batch
 		if cfg.Lock != "nolock" {
